@@ -226,6 +226,12 @@ static void run(Src &s) {
       if (!sk.second.empty()) secs.insert(sk.first);
     g_case.nontrivial = secs.size() >= 2 || read_quoted || comments || multiline;
   }
+  // an object can be written more than once: the file that is judged is then the second one
+  if (s.chance(30)) {
+    econf_err e1 = econf_writeFile(kf, g_scr.dir.c_str(), "first.conf");
+    VF_CHECK(e1 == ECONF_SUCCESS, "write-failed", "first econf_writeFile rc=" << e1);
+    g_case.tag("written_twice");
+  }
   econf_err e = econf_writeFile(kf, g_scr.dir.c_str(), "out.conf");
   econf_freeFile(kf);
   VF_CHECK(e == ECONF_SUCCESS, "write-failed", "econf_writeFile rc=" << e);
